@@ -1,6 +1,4 @@
 """C03 — the RVB cluster update preserves the thermal distribution (partial by nature)."""
-import os
-
 LEAN_TARGETS = ["QmcProps.C03", "drv_c03"]
 BINS = ["c03"]
 
@@ -22,8 +20,8 @@ THEOREMS = [
     "bc_insert_getWeight",
     "bc_getRandom_interval",
     "bc_getRandom_in_bounds",
-    "bc_getRandom_positive_partial",
-    "bc_getRandom_zero_edge",
+    "bc_getRandom_zero_draw",
+    "bc_getRandom_positive",
     "bc_getRandom_zero_weight_witness",
 ]
 
@@ -35,15 +33,9 @@ RULE = ("helpers: remove_doubles on all sorted lists over {0,1,2} up to length 6
 
 
 def main(ck):
-    # F12 is turned into an oracle FAIL (-> KNOWN-FINDING) only once it is listed for this property.
-    if any(k.get("id") == "F12" and k.get("status") == "known" for k in ck.known):
-        os.environ["C03_F12_ORACLE"] = "1"
     if ck.lake_build(LEAN_TARGETS):
         ck.audit("QmcProps.C03", ["Qmc.C03." + t for t in THEOREMS])
     if ck.cargo_build(BINS):
         cases = ck.harness("c03", ["helpers"])
         ck.correspond("helpers", "drv_c03", cases)
-    n12 = ck.stats.get("f12_public_type_reproduced", 0)
-    if n12:
-        ck.notes.append("F12 (draw 0.0 in BondContainer::get_random selects a zero-weight first key) reproduced on the public type in %s cases; the model has the same edge (theorem bc_getRandom_zero_weight_witness)" % n12)
     return ck.finish(RULE)
